@@ -1,0 +1,96 @@
+//go:build verif
+
+package main
+
+// Verification hook (build tag verif only; see /verif/DESIGN.md): exposes the pure text functions of
+// package main to the correspondence check of /verif. With PGT_VERIF_PROBE=text the binary reads one
+// JSON request per line on standard input, answers one JSON line each, and exits before main runs.
+
+import (
+	"bufio"
+	"encoding/json"
+	"os"
+
+	"github.com/gogo/protobuf/gogoproto"
+	"github.com/gogo/protobuf/proto"
+	"github.com/gogo/protobuf/protoc-gen-gogo/descriptor"
+	"github.com/gogo/protobuf/protoc-gen-gogo/generator"
+)
+
+type verifProbeRequest struct {
+	// F is the function: comment | pkgclause | jsonname | imports
+	F string `json:"f"`
+	// A holds the string arguments
+	A []string `json:"a"`
+	// Ov holds import path overrides (imports)
+	Ov map[string]string `json:"ov"`
+	// Ops holds a sequence of calls on one Imports value: ["T", t] WithType, ["P", pkg, typ] WithPackage,
+	// ["N", t, pkg] PrependPackageNameIfMissing
+	Ops [][]string `json:"ops"`
+}
+
+func verifProbeCall(i Imports, op []string) (r string, ok bool) {
+	defer func() {
+		if recover() != nil {
+			ok = false
+		}
+	}()
+	switch op[0] {
+	case "T":
+		return i.WithType(op[1]), true
+	case "P":
+		return i.WithPackage(op[1], op[2]), true
+	default:
+		return i.PrependPackageNameIfMissing(op[1], op[2]), true
+	}
+}
+
+func init() {
+	if os.Getenv("PGT_VERIF_PROBE") != "text" {
+		return
+	}
+	in := bufio.NewScanner(os.Stdin)
+	in.Buffer(make([]byte, 1<<20), 1<<28)
+	out := bufio.NewWriter(os.Stdout)
+	for in.Scan() {
+		var q verifProbeRequest
+		if err := json.Unmarshal(in.Bytes(), &q); err != nil {
+			out.WriteString("{\"error\":\"request\"}\n")
+			continue
+		}
+		var res []*string
+		switch q.F {
+		case "comment":
+			s := Comment(q.A[0]).ToSingleLine()
+			res = append(res, &s)
+		case "pkgclause":
+			s := replacePackageName(q.A[0], q.A[1])
+			res = append(res, &s)
+		case "jsonname":
+			f := &descriptor.FieldDescriptorProto{Name: proto.String("f"), Options: &descriptor.FieldOptions{}}
+			if len(q.A) > 0 {
+				if err := proto.SetExtension(f.Options, gogoproto.E_Jsontag, &q.A[0]); err != nil {
+					out.WriteString("{\"error\":\"jsontag\"}\n")
+					continue
+				}
+			}
+			s := (&FieldDescriptorProtoExt{f}).GetJSONName()
+			res = append(res, &s)
+		case "imports":
+			i := NewImports(generator.NewPluginImports(generator.New()), q.Ov)
+			for _, op := range q.Ops {
+				s, ok := verifProbeCall(i, op)
+				if !ok {
+					res = append(res, nil) // run-time panic: the sequence ends
+					break
+				}
+				res = append(res, &s)
+			}
+		}
+		b, _ := json.Marshal(map[string]interface{}{"r": res})
+		out.Write(b)
+		out.WriteByte('\n')
+	}
+	out.Flush()
+	os.Exit(0)
+}
